@@ -14,7 +14,7 @@ from trie.smt import SparseMerkleProof, SparseMerkleTree, calc_root
 from trie.typing import Nibbles
 
 from .. import bgen
-from ..core import HarnessError, Stats, Violation, hx, unhx
+from ..core import HarnessError, Stats, Violation, deep, hx, unhx
 from ..hgen import HistoryGen, make_pool, make_values, probe_keys
 from ..hworld import HWorld
 from . import c11, c12, c14
@@ -66,7 +66,7 @@ MATRIX[("S", "calc_root", "branch")] = ["short", "long"]
 MATRIX[("S", "proof_ctor", "key")] = BYTES_BAD
 MATRIX[("S", "proof_ctor", "value")] = BYTES_BAD
 MATRIX[("S", "proof_ctor", "branch")] = ["short", "long"]
-for e in ("explore_prefix", "explore_segment", "nearest_unknown", "nearest_right", "mark_all_complete", "Nibbles"):
+for e in ("explore_prefix", "explore_segment", "nearest_unknown", "nearest_right", "mark_all_complete", "Nibbles", "Nibbles_add", "Nibbles_add_then_use"):
     MATRIX[("F", e, "nibbles")] = list(NIB_BAD)
 
 CELLS = sorted((s, e, a, b) for (s, e, a), bs in MATRIX.items() for b in bs)
@@ -379,6 +379,10 @@ class FW(BadMixin, c11.World):
             "nearest_right": lambda: fog.nearest_right(x),
             "mark_all_complete": lambda: fog.mark_all_complete([x]),
             "Nibbles": lambda: Nibbles(x),
+            # a sequence built by extending a genuine Nibbles value (e.g. a prefix the fog
+            # handed out) with raw elements must be validated like any other
+            "Nibbles_add": lambda: Nibbles(some) + x,
+            "Nibbles_add_then_use": lambda: fog.nearest_right(Nibbles((1, 2)) + x),
         }[entry]
         return self.judge_bad(cmd, fn, lambda: [self.enumerate(r.fog) for r in self.reps])
 
@@ -466,8 +470,9 @@ def generate(rng):
         values = make_values(rng)
         probes = probe_keys(rng, pool, extra=1)
         g = HistoryGen(rng, pool, values, probes, batches=True, aborts=True, reopen=True, lookups=(0, 1))
+        g.p_hashval = 0.0
         g.w["bopen"] = max(g.w["bopen"], 1)
-        cmds = g.history(rng.choice([6, 10, 16, 24]))
+        cmds = g.history(rng.choice(deep([6, 10, 16, 24], [10, 20, 40, 60])))
 
         def make(pos):
             # inside an open batch if the position falls into one
